@@ -55,6 +55,7 @@ type c02lEnd struct {
 	got    atomic.Int64
 	sent   atomic.Int64
 	bad    atomic.Pointer[string]
+	badCh  chan struct{}
 	gotAll chan struct{}
 	rDone  chan struct{}
 	wDone  chan struct{}
@@ -89,6 +90,7 @@ func (e *c02lEnd) reader() {
 			if e.bad.Load() == nil && (end > int64(len(e.expect)) || !bytes.Equal(buf[:n], e.expect[got:end])) {
 				s := fmt.Sprintf("chunk of %d bytes at offset %d differs from the peer's stream (stream length %d)", n, got, len(e.expect))
 				e.bad.Store(&s)
+				close(e.badCh)
 			}
 			got = end
 			e.got.Store(got)
@@ -207,8 +209,9 @@ func TestVerifC02Lifecycle(t *testing.T) {
 	ctx := context.Background()
 	undecided := 0
 
+	stop := false
 	for _, c := range cases {
-		if run.Violations() >= 10 {
+		if run.Violations() >= 10 || stop {
 			break
 		}
 		lc := c02lLimitClass(c.Limit)
@@ -255,7 +258,7 @@ func TestVerifC02Lifecycle(t *testing.T) {
 		cr := rand.New(rand.NewSource(c.CSeed))
 		mk := func(cl *miniClient, send, expect []byte, maxChunk int) *c02lEnd {
 			return &c02lEnd{c: cl, send: send, expect: expect, chunks: vk.RandPartition(cr, len(send), maxChunk),
-				gotAll: make(chan struct{}), rDone: make(chan struct{}), wDone: make(chan struct{})}
+				gotAll: make(chan struct{}), badCh: make(chan struct{}), rDone: make(chan struct{}), wDone: make(chan struct{})}
 		}
 		S := mk(sc, s2t, t2s, c.ChunkS)
 		T := mk(tc, t2s, s2t, c.ChunkT)
@@ -284,6 +287,7 @@ func TestVerifC02Lifecycle(t *testing.T) {
 		}
 		harnessClosed := false
 		complete := false
+		corrupt := false
 		if c.Early {
 			// close as soon as the closer has received something (both loops are running)
 			wd := time.NewTimer(20 * time.Second)
@@ -323,10 +327,15 @@ func TestVerifC02Lifecycle(t *testing.T) {
 				complete = S.wErr == nil && T.wErr == nil
 			case <-S.rDone:
 			case <-T.rDone:
+			case <-S.badCh:
+				corrupt = true
+			case <-T.badCh:
+				corrupt = true
 			case <-wd.C:
 				run.Count("watchdog", 1)
 				run.Observe("watchdog_last", detail(map[string]any{"phase": "transfer"}))
 				undecided++
+				stop = true
 			}
 			wd.Stop()
 			if !complete {
@@ -336,7 +345,7 @@ func TestVerifC02Lifecycle(t *testing.T) {
 				default:
 				}
 			}
-			if !complete && undecided == 0 {
+			if !complete && undecided == 0 && !corrupt {
 				// a reader saw the end of the stream although the harness has closed nothing
 				run.Violation("C02:incomplete|limit="+lc+"|cause=server-closed-tunnel", detail(map[string]any{
 					"what":            "the server ended the tunnel although neither end had closed; bytes written by an end were not delivered",
